@@ -25,7 +25,7 @@ def passed_tests(xml):
 
 
 def main():
-    names = sys.argv[1:] or sorted(p.name for p in (ROOT / "seeded").iterdir() if (p / "meta.json").exists())
+    names = [a for a in sys.argv[1:] if not a.startswith("--")] or sorted(p.name for p in (ROOT / "seeded").iterdir() if (p / "meta.json").exists())
     base = json.load(open("/root/.vp/BASELINE.json"))
     for name in names:
         d = ROOT / "seeded" / name
@@ -34,9 +34,11 @@ def main():
             continue
         wt = Path(f"/tmp/ss-{name}")
         sh(["git", "-C", "/repo", "worktree", "remove", "--force", str(wt)])
-        r = sh(["git", "-C", "/repo", "worktree", "add", "--detach", str(wt), "HEAD"])
+        r = sh(["git", "-C", "/repo", "worktree", "add", "--detach", str(wt), meta.get("base", "HEAD")])
         try:
             ap = sh(["git", "-C", str(wt), "apply", str(d / "patch.diff")])
+            if ap.returncode == 0:
+                meta.pop("suite_note", None)
             if ap.returncode != 0:
                 meta["suite_note"] = "patch does not apply to the current HEAD: " + ap.stderr[-200:]
                 (d / "meta.json").write_text(json.dumps(meta, indent=1))
